@@ -39,13 +39,13 @@ PROPS["C05"] = dict(
          "pop_bit, pop_int incl. wider than the content, set_bit, set_int incl. word-straddling, resize up/down across word boundaries, clear, reserve; push/pop/set/resize/clear/reserve/pack/extend "
          "with values wider than the item width). After every transition: return value, len/width, every bit/item, iterators, and the canonical-state oracle (== a freshly built vector, identical bytes, same count of set bits). "
          "States are deduplicated on the real object's full representation (len, width, words); a state is non-trivial/distinct when its representation was not seen before in the same BFS.",
-    bounds={"quick": "depth 4, reduced value alphabet, 12 raw + 59 int initial states (10 widths)", "thorough": "depth 4 full alphabet + depth 5 reduced alphabet (+ raw depth 5 with the all-ones value, int depth 6 at widths 1/7/8/33/63/64), 12 raw + 331 int initial states (all 64 widths)"},
+    bounds={"quick": "depth 4, reduced value alphabet, 12 raw + 79 int initial states (10 widths)", "thorough": "depth 4 full alphabet + depth 5 reduced alphabet (+ raw depth 5 with the all-ones value, int depth 6 at widths 1/7/8/33/63/64), 12 raw + 459 int initial states (all 64 widths)"},
     xcheck={"thorough": {"bin": "c05x", "args": [4]}},
     assumptions=[HOOK_ASSUMPTION, "thorough: the RawVector model (same initial states, alphabet, transition function on the real vector, oracle) is also explored by stateright's BFS checker to depth 4; unique-state counts of the two engines must agree (cross_engine_stateright in the evidence)", "states reachable from several initial states are counted once per initial state (each BFS has its own seen-set)", "set_bit/set_int beyond len and capacity values are not part of the property and not checked"],
 )
 MANIFEST_TEXT["C05"] = dict(engine="E-hist", design_ref="DESIGN.md §4 C05",
     technique="explicit-state breadth-first exploration of operation histories on the real vectors with a reference-model and canonical-state oracle after every transition",
-    level_text="All operation sequences up to depth 4 (5 in thorough with the reduced alphabet) from 71/343 initial states, every transition executed on the real object and compared with a Vec<bool>/Vec<u64> reference; "
+    level_text="All operation sequences up to depth 4 (5 in thorough with the reduced alphabet) from 91/471 initial states, every transition executed on the real object and compared with a Vec<bool>/Vec<u64> reference; "
                "states deduplicated on the concrete representation so stale bits create new states and are flagged immediately.",
     level_note="Histories longer than the bound, and value patterns outside the alphabet, are not explored.")
 
